@@ -51,7 +51,9 @@ static int decoder_step(const unsigned char *next_in, size_t *in_avail, size_t *
     /* the bytes offered are the unconsumed tail of the CURRENT chunk */
     assert(next_in>=cur_chunk && next_in+*in_avail==cur_chunk+cur_len);
     __CPROVER_assume(g_ninfl<NPLAN && g_ninfl<g_step_limit);   /* bound: NPLAN decoder invocations per run, the first N1 of them in the first data call */
+#ifdef STEP_SPLIT
     int last_of_call=(g_ninfl+1==g_step_limit);
+#endif
     int rc=rc_plan[g_ninfl]; g_ninfl++;
     size_t off=(size_t)(next_in-cur_chunk)+cur_base;
     if(g_resync){ g_next_in_off=off; g_resync=0; }
@@ -60,7 +62,9 @@ static int decoder_step(const unsigned char *next_in, size_t *in_avail, size_t *
     if(rc==Z_DATA_ERROR || rc==Z_BUF_ERROR){ *used_in=0; *made_out=0; return rc; }      /* failure without progress */
     size_t ui=in_size_le(*in_avail), mo=in_size_le(*out_avail);
     __CPROVER_assume(ui>0 || mo>0);                 /* zlib: Z_OK implies progress */
+#ifdef STEP_SPLIT
     if(rc==Z_OK){ if(last_of_call) __CPROVER_assume(ui==*in_avail); else __CPROVER_assume(ui<*in_avail); }   /* the plan fixes how many invocations a call takes */
+#endif
     g_next_in_off+=ui; g_produced+=mo; *used_in=ui; *made_out=mo;
     return rc;
 }
@@ -85,6 +89,14 @@ SRes LzmaDec_DecodeToBuf(CLzmaDec *p, Byte *dest, SizeT *destLen, const Byte *sr
 static htp_status_t cb(htp_tx_data_t *d){ assert(g_ncb<8); cb_data[g_ncb]=d->data; cb_len[g_ncb]=d->len;
     if(g_err_seen && d->len>0) g_cb_after_err++;
     g_delivered+=d->len; htp_status_t rc=cb_rc_plan[g_ncb]; g_ncb++; if(rc!=HTP_OK) g_err_seen=1; return rc; }
+#ifndef KF_MODE_F12_restart_loses_chunk
+#define KF_MODE_F12_restart_loses_chunk 0
+#endif
+/* length of a gzip member header with extensions as the library's probe computes it (RFC 1952: 10 bytes, + 2 for FHCRC, or up to the
+ * NUL of FNAME / FCOMMENT); 0 when the chunk does not start with such a header */
+static size_t gzip_header_skip(const unsigned char *d, size_t n){ if(n<4) return 0; if(!(d[0]==0x1f && d[1]==0x8b && d[3]!=0)) return 0;
+    if(d[3]&(1<<3) || d[3]&(1<<4)){ size_t k=10; for(size_t i=10;i<LEN1;i++) if(k==i && i<n && d[i]!=0) k++; return k+1; }
+    if(d[3]&(1<<1)) return 12; return 10; }
 static htp_cfg_t CFG; static htp_connp_t C; static htp_tx_t TX;
 static htp_status_t call(htp_decompressor_t *dz, const unsigned char *data, size_t len, size_t base){ htp_tx_data_t d; d.tx=&TX; d.data=data; d.len=len; d.is_last=0;
     cur_chunk=data; cur_len=len; cur_base=base; return htp_gzip_decompressor_decompress(dz,&d); }
@@ -103,8 +115,18 @@ void harness(void){
         HTP_COMPRESSION_GZIP;
 #endif
     htp_decompressor_t *dz=htp_gzip_decompressor_create(&C,fmt); __CPROVER_assume(dz); dz->callback=cb;
-#if SCEN==1
+#if SCEN==5
+    /* a decompressor that has given up (pass-through) hands every later chunk, and the final empty call, to the callback untouched */
     for(int i=0;i<8;i++) cb_rc_plan[i]=HTP_OK;
+    dz->passthrough=1; ((htp_decompressor_gzip_t*)dz)->zlib_initialized=0;
+    htp_status_t rc=call(dz,chunk1,LEN1,0); assert(rc==HTP_OK && g_ncb==1 && cb_data[0]==chunk1 && cb_len[0]==LEN1);
+    {   htp_tx_data_t e; e.tx=&TX; e.data=NULL; e.len=0; e.is_last=1; rc=htp_gzip_decompressor_decompress(dz,&e); assert(rc==HTP_OK && g_ncb==2 && cb_data[1]==NULL && cb_len[1]==0); }
+    assert(g_ninfl==0);
+#elif SCEN==1
+    for(int i=0;i<8;i++) cb_rc_plan[i]=HTP_OK;
+    /* known finding F12: a chunk that consists of nothing but a gzip header with extensions (the header probe of the first restart
+     * skips exactly the whole chunk) is swallowed: no decoder call, no pass-through, and the bytes are not re-fed later */
+    KF_GATE(KF_MODE_F12_restart_loses_chunk, gzip_header_skip(chunk1,LEN1)==LEN1);
     htp_status_t rc=call(dz,chunk1,LEN1,0);
     assert(rc==HTP_OK); assert(g_ncb==1); assert(cb_data[0]==chunk1 && cb_len[0]==LEN1);      /* the whole chunk, passed through */
     assert(dz->passthrough==1);
@@ -114,9 +136,15 @@ void harness(void){
 #elif SCEN==2
     for(int i=0;i<8;i++) cb_rc_plan[i]=HTP_OK;
     g_next_in_off=LZMA_PROPS_SIZE+8; g_resync=0;
+#ifdef STEP_SPLIT
+    g_step_limit=N1;
+#endif
     htp_status_t rc=call(dz,chunk1,LEN1,0); assert(rc==HTP_OK);
 #if LEN1<13
     assert(n_alloc==0 && g_ninfl==0);
+#endif
+#ifdef STEP_SPLIT
+    __CPROVER_assume(g_ninfl==N1); g_ninfl=N1; g_step_limit=NPLAN;
 #endif
     rc=call(dz,chunk2,LEN2,LEN1);
     assert(n_alloc==1);
@@ -131,7 +159,7 @@ void harness(void){
     rc=call(dz,chunk2,LEN2,LEN1);
 #endif
     {   htp_tx_data_t e; e.tx=&TX; e.data=NULL; e.len=0; e.is_last=1; rc=htp_gzip_decompressor_decompress(dz,&e); assert(rc==HTP_OK); }
-    VERIF_COVER(g_delivered>8192, "more than one buffer delivered");
+    VERIF_COVER(g_delivered>0, "something delivered");
     assert(g_delivered==g_produced);
     for(unsigned i=0;i<8;i++) if(i<g_ncb) assert(cb_len[i]<=8192);
 #elif SCEN==4
